@@ -14,10 +14,13 @@ float32):  |lib - ref| <= 5e-6 + 1e-5 |ref|  ("TOL32").  Library-vs-library rela
 transfer are accepted when they meet TOL32 either on the information scale or, because
 -1/2 log(1 - r^2) is ill-conditioned at |r| -> 1, on the |r| scale.
 """
-import itertools
-import json
-import math
 import os
+for _v in ("OMP_NUM_THREADS", "OPENBLAS_NUM_THREADS", "MKL_NUM_THREADS"):
+    os.environ.setdefault(_v, "1")      # worker processes: no BLAS thread oversubscription
+
+import itertools      # noqa: E402
+import json           # noqa: E402
+import math
 import sys
 import tempfile
 import traceback
@@ -55,7 +58,7 @@ SCOPE = (
     "transfer TOL32 on the information scale or 5e-6 on the |r| scale.  Not compared (reference "
     "undefined): statistics of a constant series (cross-correlation must return its documented "
     "0), Gaussian estimates with |r| >= 1-1e-9 or a regressed series that keeps < 1e-5 of its "
-    "norm, partial correlation when the correlation matrix has condition number > 1e6 or "
+    "norm or exactly collinear conditioning series, partial correlation when the correlation matrix has condition number > 1e6 or "
     "T <= N+2, histogram-MI pairs with a value within 5e-5 (float32 kernel) / 1e-9 (float64 "
     "kernel) cell widths of a cell boundary, knn entries of identical series.  Known defect #18 "
     "(int8 lag) is probed in exactly one case (check cross_correlation/lag-int8-range).  Three "
@@ -1090,19 +1093,18 @@ def fam_surr(w, acc):
     if any(ao) or any(as_):
         acc.skip("Surrogates.test_mutual_information: pairs involving a series with a value within "
                  "1e-9 cell widths of a cell boundary are not compared")
-    if True:
-        ref = np.full((N, N), np.nan)
-        for i in range(N):
-            for j in range(N):
-                if i != j and not ao[i] and not as_[j]:
-                    ref[i, j] = S.plugin_mi(so[i], ss[j])
-        msg = cmp_defined(mi_, ref)
-        if msg:
-            acc.fail("Surrogates.test_mutual_information/equals-histogram-mi", w, msg)
-        if np.any(mi_ < -ATOL) or np.any(mi_ > math.log(n_bins) + 2 * ATOL):
-            acc.fail("Surrogates.test_mutual_information/bounds", w, "outside [0, log n_bins]")
-        if w["surrogate"] == "self" and np.any(offd & ~tol_ok(mi_, mi_.T, 2.0)):
-            acc.fail("Surrogates.test_mutual_information/symmetric", w, "not symmetric")
+    ref = np.full((N, N), np.nan)
+    for i in range(N):
+        for j in range(N):
+            if i != j and not ao[i] and not as_[j]:
+                ref[i, j] = S.plugin_mi(so[i], ss[j])
+    msg = cmp_defined(mi_, ref)
+    if msg:
+        acc.fail("Surrogates.test_mutual_information/equals-histogram-mi", w, msg)
+    if np.any(mi_ < -ATOL) or np.any(mi_ > math.log(n_bins) + 2 * ATOL):
+        acc.fail("Surrogates.test_mutual_information/bounds", w, "outside [0, log n_bins]")
+    if w["surrogate"] == "self" and np.any(offd & ~tol_ok(mi_, mi_.T, 2.0)):
+        acc.fail("Surrogates.test_mutual_information/symmetric", w, "not symmetric")
     if not w.get("rel"):
         return
     # ---- relations: normalise -> test; affine map of the raw series, permutation of the series
